@@ -321,6 +321,31 @@ pub fn c29(args: &Args) -> Vec<Scenario> {
             }
         }
     }
+    // Every order of source timestamps from {fresh, half-way, nearly expired}: the writer history is ordered by write
+    // sequence, not by source timestamp, so an expired change may sit behind one that is still valid (seeded change C29-1:
+    // "purge only the expired prefix"). The late joiner arrives when the nearly expired ones are gone and the fresh ones are not.
+    for life in if t { vec![300i64, 1000] } else { vec![300i64] } {
+        let alphabet = [0i64, -life / 2, -life * 5 / 6];
+        let mut seqs: Vec<Vec<i64>> = vec![];
+        for a in alphabet {
+            for b in alphabet {
+                seqs.push(vec![a, b]);
+                if t {
+                    for c in alphabet {
+                        seqs.push(vec![a, b, c]);
+                    }
+                }
+            }
+        }
+        for offs in seqs {
+            for late in if t { vec![None, Some(life / 4), Some(life / 2)] } else { vec![Some(life / 2)] } {
+                let tag = offs.iter().map(|o| (-o * 6 / life).to_string()).collect::<Vec<_>>().join("");
+                let p = Rc::new(LifeParams { name: format!("C29.order[{life}ms,sixths={tag},late={late:?}]"), lifespan_ms: life, ts_offsets_ms: offs.clone(), late_join_ms: late });
+                let name = p.name.clone();
+                v.push(Scenario::new(name, 1 + t as usize, move |ctx| lifespan(ctx, p.clone())).cfg(|c| c.horizon_ms = 60_000).post(worker_sleep_oracle));
+            }
+        }
+    }
     v
 }
 
